@@ -90,6 +90,10 @@ class GraphDriver:
                 # regenerating for the comparison re-registered the assets' node lists on the model: restore
                 for n in G.nodes:
                     pass
+            elif op == 'Sibling':
+                if not hasattr(self, 'siblings'):
+                    self.siblings = []
+                self.siblings.append(AttackGraph(self.ctx.lang_graph, self.model))      # kept alive by the caller
             elif op == 'AddNode':
                 n = AttackGraphNode(type=act['kind'], name='x')
                 if act['kind'] == 'defense':
